@@ -128,15 +128,20 @@ CLAIMS["C06"] = claim("lean-model + harness fo (TTL(ctx) recorded at every backe
     "context.Context semantics (values, cancellation) is the Go standard library's.",
     "Lean 4 proof (arithmetic on the regenerated kernel + machine step lemmas) + model/implementation correspondence", "DESIGN.md §6 C06")
 
-CLAIMS["C16"] = claim("lean-model (footprint table) + harness race (Go race detector in child processes)",
-    "PARTIAL. Lean 4 theorems decided by kernel evaluation over the complete footprint table of the public API (165 accesses with their "
+CLAIMS["C16"] = claim("lean-model (trace semantics + footprint table) + harness race (Go race detector in child processes)",
+    "PARTIAL. (1) General theorems over ALL legal traces of a trace semantics of the Go memory model fragment the cache uses (RWMutex, "
+    "sync/atomic, close/receive; any number of goroutines, locks, locations, any interleaving): the lockset theorem (accesses under a common "
+    "lock, writes exclusive => ordered by happens-before => no data race), atomic discipline, close-before-receive and init-before-publish "
+    "orderings, and soundness of the footprint table's lock clause for that semantics; the semantics does call the known F9a shape a race. "
+    "(2) Kernel-decided theorems over the complete footprint table of the public API (165 accesses with their "
     "guards): every unprotected conflicting pair is one of the two known findings (in-place expiry write of ExpireAll; plain struct "
     "copies vs the atomic LRU/LFU counter), every other location (shard maps, sync.Map, key locks and lock records, label index, "
     "deleters, lastRun, expirationsSet) is disciplined, and the table is race free once the two repairs are applied. Implementation side: "
     "all pairs (quick: a seeded two thirds) of a 13-op backend and a 10-op frontend catalogue run concurrently under the race detector; "
     "every report must be one the model predicts (else VIOLATION); predicted ones are listed as known findings.",
-    "Partial: the table is hand-written and tied to the code only by the detector, which sees only executions that happen; 'discipline implies DRF' is assumed.",
-    "Lean 4 proof (decide +kernel over the footprint table) + race-detector correspondence", "DESIGN.md §6 C16")
+    "Partial: the table is hand-written and tied to the code only by the detector (plus the access-fact tie of tools/gokernel where present), which sees only executions that happen; "
+    "that the trace semantics matches the Go memory model document and that sync.Map is internally synchronised are assumed.",
+    "Lean 4 proof (induction over traces for the lockset theorem; decide +kernel over the footprint table) + race-detector correspondence", "DESIGN.md §6 C16")
 
 CLAIMS["C08"] = claim("lean-model (Linz checker, slot-heap model) + harness linz (free-running goroutines)",
     "PARTIAL. Lean 4 theorems: the executable linearizability checker applied to every observed per-slot history is sound (an accepted "
